@@ -13,7 +13,7 @@ import (
 
 // c06Script runs one timed confirmation script on a real suspicion timer in virtual time.
 func c06Script(r *rng, id string) {
-	k := []int{0, 1, 2, 2, 3, 4, 6}[r.intn(7)]
+	k := []int{0, 1, 2, 2, 3, 4, 6, -1}[r.intn(8)] // -1: SuspicionMult = 1 gives k = SuspicionMult-2 < 0
 	minD := []time.Duration{100 * time.Millisecond, ml.VerifSuspicionTimeout(4, 50, 100*time.Millisecond),
 		2 * time.Second, ml.VerifSuspicionTimeout(4, 11, time.Second), 500 * time.Millisecond,
 		ml.VerifSuspicionTimeout(3, 7000, 33*time.Millisecond)}[r.intn(6)]
